@@ -70,12 +70,14 @@ th!(c20_q_recv_reported_figures, 8, {
         ))
         .unwrap();
         assert!(verif::recv_has_pdu_to_send(&t));
-        match recv_send(&mut t, &ch) {
+        let out11 = recv_send(&mut t, &ch);
+        match &out11 {
             Some((_, PDU { payload: PDUPayload::Directive(Operations::KeepAlive(k)), .. })) => {
                 assert!(k.progress == held, "keep-alive progress == bytes held")
             }
             _ => assert!(false, "KeepAlive expected"),
         }
+        forget(out11);
     } else if which == 1 {
         t.suspend().unwrap();
         t.resume().unwrap();
@@ -114,12 +116,13 @@ fn send_progress_step(l: usize, s: u16) {
     let (mut t, c) = sender_first_pass(l, s, &ch);
     let pdu = send_send(&mut t, &ch);
     let want_len = if l - c < s as usize { l - c } else { s as usize };
-    match pdu {
+    match &pdu {
         Some((_, PDU { payload: PDUPayload::FileData(FileDataPDU::Unsegmented(d)), .. })) => {
             assert!(d.offset == c as u64 && d.file_data.len() == want_len, "segment at the cursor, capped by segment size and EOF");
         }
         _ => assert!(false, "file data expected"),
     }
+    forget(pdu);
     let prog = t.verif_progress();
     assert!(prog == (c + want_len) as u64, "sender progress == highest offset transmitted");
     assert!(prog <= l as u64, "progress never exceeds the file size");
